@@ -3,7 +3,7 @@ import engine
 
 OPS = ["echelonize_naive", "gauss_delayed", "echelonize_m4ri", "echelonize_pluq", "echelonize", "_echelonize_m4ri",
        "top_echelonize_m4ri"]
-PROOFS = []
+PROOFS = ["Properties_C02"]
 
 
 def run(res, tier, seed):
@@ -11,6 +11,7 @@ def run(res, tier, seed):
                        "dependent rows anywhere, rank 0..min) and generic content classes; every route, both values of full, "
                        "k in 0..10, thresholds; distinct by (route, shape class, rank profile kind, full, k)")
     engine.proof_part(res, PROOFS)
+    engine.corpus(res, "C02")
     n = 80 if tier == "quick" else 700
     engine.run_ops(res, "C02", OPS, seed, n, 130 if tier == "quick" else 400)
 
